@@ -50,9 +50,11 @@ def run_one(m, workdir):
         else:
             p = os.path.join(copy, m['file'])
             s = open(p).read()
-            if s.count(m['old']) != 1:
-                return name, 'skipped', 'anchor text occurs %d times in %s' % (s.count(m['old']), m['file']), time.time() - t0
-            open(p, 'w').write(s.replace(m['old'], m['new']))
+            for old_, new_ in (m.get('edits') or [[m['old'], m['new']]]):
+                if s.count(old_) != 1:
+                    return name, 'skipped', 'anchor text occurs %d times in %s' % (s.count(old_), m['file']), time.time() - t0
+                s = s.replace(old_, new_)
+            open(p, 'w').write(s)
         env = dict(os.environ, MLS_REPO=copy, MLS_VERIF_CACHE=cache)
         results = []
         for prop in m['property'].split(','):
